@@ -116,12 +116,14 @@ theorem theta_frame (s : Shp) (h : s.WF) (hin : s.Input) (p : Param)
 
 /-- `theta_field_frame`: within an item that *is* changed, every field whose value did not change keeps
     its token: the init token, the FIX tokens and the blanks around them, the upper-bound token, and the
-    lower-bound token (unless the lower bound has to go because the upper bound was just removed). -/
+    lower-bound token (unless the lower bound has to go because the upper bound was just removed).
+    The one documented exception for the upper bound (fix 6b0a1ad): an explicit infinite upper bound cannot
+    stay when the lower bound is removed — hence the hypothesis "if there is a lower bound it is still needed". -/
 theorem theta_field_frame (s : Shp) (h : s.WF) (hin : s.Input) (p : Param) :
     ∃ s' : Shp, updItem s.build p = s'.build ∧ s'.WF ∧
       (s.ini.val = p.init → s'.ini = s.ini) ∧
       (hasK .fix s.tail = p.fix → s'.tail = s.tail) ∧
-      (curUpper s.upV = p.upper → s'.up = s.up) ∧
+      (curUpper s.upV = p.upper → (s.low.isSome = true → needLower p = true) → s'.up = s.up) ∧
       (curLower s.lowV = p.lower → (s.low = none → needLower p = false) →
         (needLower p = true ∨ curUpper s.upV = p.upper) → s'.low = s.low) := by
   obtain ⟨s4, e, h4, _, _, _, _, _, h1, h2, h3, h5, _⟩ := Shp.updItem_steps s h hin p
@@ -174,18 +176,16 @@ theorem theta_bound_spelling_kept :
     updItem cs p = [tokLpar, nNum .low "0" 0, tokComma, nNum .init "4.0" 4, tokComma, nNum .up "1E2" 100, tokRpar] := by
   decide
 
-/-- left over after the fix: an explicit infinite upper bound (`INF`, `1000000`) is now kept, also when the
-    lower bound and the parentheses are removed: `(0,7.5,INF)` with the lower bound set to -inf is written
-    `7.5,INF`, which the grammar does not derive (the values theorem still holds on the tree). -/
-theorem theta_explicit_inf_upper_witness :
+/-- fixed by 6b0a1ad (found by this check after c1795fa): an explicit infinite upper bound (`INF`,
+    `1000000`) goes together with the lower bound and the parentheses: `(0,7.5,INF)` with the lower bound set
+    to -inf is written `7.5` (c1795fa alone wrote `7.5,INF`, which the grammar does not derive). -/
+theorem theta_explicit_inf_upper_removed :
     let cs := [tokLpar, nNum .low "0" 0, tokComma, nNum .init "7.5" 15 2, tokComma,
                ({ k := .up, rule := "POS_INF", text := "INF", val := .pinf } : TNode), tokRpar]
     let p : Param := { init := .fin 15 2, initS := "7.5", lower := .ninf, lowerS := "-inf",
                        upper := .pinf, upperS := "inf", fix := false }
-    grammarOK cs = true ∧
-    updItem cs p = [nNum .init "7.5" 15 2, tokComma,
-                    ({ k := .up, rule := "POS_INF", text := "INF", val := .pinf } : TNode)] ∧
-    grammarOK (updItem cs p) = false := by
+    grammarOK cs = true ∧ updItem cs p = [nNum .init "7.5" 15 2] ∧ grammarOK (updItem cs p) = true ∧
+      parseItem (updItem cs p) = .ok p.toParsed := by
   decide
 
 /-- fixing `(1)x2` appends ` FIX` after `x2`; the `theta` rule has `n | FIX` there, not both -/
